@@ -1,6 +1,6 @@
 (* C18 — C-library re-implementations behave like the C library in the "C" locale.
-   Property theorems only: each is closed by [exact] of a lemma proved in Proofs*.v, followed by
-   Print Assumptions.  Model = coq/C18/Model.v (mirror of _strings/cstr.hpp and the front ends),
+   Property theorems only: each is closed by [exact] of a lemma proved in Proofs*.v; Print Assumptions is
+   asked per group of theorems at the end of the file.  Model = coq/C18/Model.v (mirror of _strings/cstr.hpp and the front ends),
    Spec = coq/C18/Spec.v (C17 7.4, 7.22.6, 7.24, 7.29.4, 7.30.2 on lists and integers).
 
    Reading guide.  A string argument is a buffer [a ++ 0 :: rest] with [~ In 0 a]: [a] is the string,
@@ -21,12 +21,10 @@ Theorem C18_cctype_classes : forall c, -1 <= c <= 255 ->
   islower_m c = b2z (islower_s c) /\ isprint_m c = b2z (isprint_s c) /\ ispunct_m c = b2z (ispunct_s c) /\
   isspace_m c = b2z (isspace_s c) /\ isupper_m c = b2z (isupper_s c) /\ isxdigit_m c = b2z (isxdigit_s c).
 Proof. exact cctype_classes. Qed.
-Print Assumptions C18_cctype_classes.
 
 Theorem C18_cctype_conversions : forall c, -1 <= c <= 255 ->
   tolower_m c = Some (tolower_s c) /\ toupper_m c = Some (toupper_s c).
 Proof. exact cctype_conversions. Qed.
-Print Assumptions C18_cctype_conversions.
 
 (* every wint_t value, WEOF included *)
 Theorem C18_cwctype_classes : forall c, 0 <= c < 4294967296 ->
@@ -35,12 +33,10 @@ Theorem C18_cwctype_classes : forall c, 0 <= c < 4294967296 ->
   iswlower_m c = b2z (islower_s c) /\ iswprint_m c = b2z (isprint_s c) /\ iswpunct_m c = b2z (ispunct_s c) /\
   iswspace_m c = b2z (isspace_s c) /\ iswupper_m c = b2z (isupper_s c) /\ iswxdigit_m c = b2z (isxdigit_s c).
 Proof. exact cwctype_classes. Qed.
-Print Assumptions C18_cwctype_classes.
 
 Theorem C18_cwctype_conversions : forall c, 0 <= c < 4294967296 ->
   towlower_m c = tolower_s c /\ towupper_m c = toupper_s c.
 Proof. exact cwctype_conversions. Qed.
-Print Assumptions C18_cwctype_conversions.
 
 (* sanity of the 7.4 tables themselves: control/printing partition of 0..127, print = space + graph,
    graph = alnum + punct (disjoint), nothing outside 0..127 is classified *)
@@ -50,81 +46,66 @@ Theorem C18_ctype_partition : forall c, -1 <= c <= 255 ->
   (isgraph_s c = xorb (isalnum_s c) (ispunct_s c)) /\ (isalnum_s c && ispunct_s c = false) /\
   (c < 0 \/ c > 127 -> iscntrl_s c = false /\ isprint_s c = false /\ isspace_s c = false /\ isalnum_s c = false).
 Proof. exact ctype_partition. Qed.
-Print Assumptions C18_ctype_partition.
 
 (** * read-only string and memory functions: all strings, any length *)
 Theorem C18_strlen : forall a rest, ~ In 0 a -> strlen_m (a ++ 0 :: rest) = Ok (strlen_s a).
 Proof. exact strlen_ok. Qed.
-Print Assumptions C18_strlen.
 
 (* comparison on unsigned char values (narrow) / wchar_t values (wide); result -1, 0, 1 = the sign C requires *)
 Theorem C18_strcmp : forall ct a b ra rb, ~ In 0 a -> ~ In 0 b -> chars_ok ct a -> chars_ok ct b ->
   strcmp_m ct (a ++ 0 :: ra) (b ++ 0 :: rb) = Ok (strcmp_s a b).
 Proof. exact strcmp_ok. Qed.
-Print Assumptions C18_strcmp.
 
 (* source ARRAYS: a terminator among the first n elements, or at least n elements (no terminator needed) *)
 Theorem C18_strncmp : forall ct n A B, array_ok n A = true -> array_ok n B = true -> chars_ok ct A -> chars_ok ct B ->
   strncmp_m ct A B n = Ok (strncmp_s A B n).
 Proof. exact strncmp_ok. Qed.
-Print Assumptions C18_strncmp.
 
 Theorem C18_memcmp : forall ct n A B, (n <= length A)%nat -> (n <= length B)%nat -> chars_ok ct A -> chars_ok ct B ->
   memcmp_m ct A B n = Ok (memcmp_s A B n).
 Proof. exact memcmp_ok. Qed.
-Print Assumptions C18_memcmp.
 
 (* ch is any int; it is converted to the character type (low byte for char) as 7.24.5.2 says *)
 Theorem C18_strchr : forall ct a rest ch, ~ In 0 a ->
   strchr_m ct (a ++ 0 :: rest) ch = Ok (strchr_s a (conv_char (is_wide ct) ch)).
 Proof. exact strchr_ok. Qed.
-Print Assumptions C18_strchr.
 
 Theorem C18_strrchr : forall ct a rest ch, ~ In 0 a ->
   strrchr_m ct (a ++ 0 :: rest) ch = Ok (strrchr_s a (conv_char (is_wide ct) ch)).
 Proof. exact strrchr_ok. Qed.
-Print Assumptions C18_strrchr.
 
 (* n may exceed the array when a match exists (the scan stops there, C11 7.24.5.1p2) *)
 Theorem C18_memchr : forall ct A ch n,
   ((n <= length A)%nat \/ memchr_s A (conv_char (is_wide ct) ch) n <> None) ->
   memchr_m ct A ch n = Ok (memchr_s A (conv_char (is_wide ct) ch) n).
 Proof. exact memchr_ok. Qed.
-Print Assumptions C18_memchr.
 
 Theorem C18_strspn : forall a b ra rb, ~ In 0 a -> ~ In 0 b ->
   strspn_m true (a ++ 0 :: ra) (b ++ 0 :: rb) = Ok (strspn_s a b).
 Proof. exact strspn_ok. Qed.
-Print Assumptions C18_strspn.
 
 Theorem C18_strcspn : forall a b ra rb, ~ In 0 a -> ~ In 0 b ->
   strspn_m false (a ++ 0 :: ra) (b ++ 0 :: rb) = Ok (strcspn_s a b).
 Proof. exact strcspn_ok. Qed.
-Print Assumptions C18_strcspn.
 
 Theorem C18_strpbrk : forall a b ra rb, ~ In 0 a -> ~ In 0 b ->
   strpbrk_m (a ++ 0 :: ra) (b ++ 0 :: rb) = Ok (strpbrk_s a b).
 Proof. exact strpbrk_ok. Qed.
-Print Assumptions C18_strpbrk.
 
 Theorem C18_strstr : forall n rn, ~ In 0 n -> forall h rh, ~ In 0 h ->
   strstr_m (h ++ 0 :: rh) (n ++ 0 :: rn) = Ok (strstr_s h n).
 Proof. exact strstr_ok. Qed.
-Print Assumptions C18_strstr.
 
 (* the specification used for strstr is "the FIRST occurrence of the needle, if any" *)
 Theorem C18_strstr_spec_first : forall h n i, strstr_s h n = Some i ->
   (i <= length h)%nat /\ is_prefix n (skipn i h) = true /\ forall j, (j < i)%nat -> is_prefix n (skipn j h) = false.
 Proof. exact strstr_s_some. Qed.
-Print Assumptions C18_strstr_spec_first.
 
 Theorem C18_strstr_spec_none : forall h n, strstr_s h n = None -> forall j, is_prefix n (skipn j h) = false.
 Proof. exact strstr_s_none. Qed.
-Print Assumptions C18_strstr_spec_none.
 
 Theorem C18_is_prefix_meaning : forall n h, is_prefix n h = true <-> exists t, h = n ++ t.
 Proof. exact is_prefix_iff. Qed.
-Print Assumptions C18_is_prefix_meaning.
 
 (** * writers: exact contents of the whole destination region, i.e. payload and frame *)
 Theorem C18_overwrite_frame : forall new d, (length new <= length d)%nat ->
@@ -135,60 +116,50 @@ Proof.
   exact (fun new d H => conj (overwrite_length new d H)
                              (conj (overwrite_new new d) (overwrite_frame new d))).
 Qed.
-Print Assumptions C18_overwrite_frame.
 
 Theorem C18_strcpy : forall a rest d, ~ In 0 a -> (length a < length d)%nat ->
   strcpy_m d (a ++ 0 :: rest) = Ok (strcpy_s d a).
 Proof. exact strcpy_ok. Qed.
-Print Assumptions C18_strcpy.
 
 (* exactly n elements written: the characters before the terminator, then null padding *)
 Theorem C18_strncpy : forall n d A, array_ok n A = true -> (n <= length d)%nat ->
   strncpy_m d A n = Ok (strncpy_s d A n).
 Proof. exact strncpy_ok. Qed.
-Print Assumptions C18_strncpy.
 
 Theorem C18_strcat : forall a rd b rb, ~ In 0 a -> ~ In 0 b -> (length b <= length rd)%nat ->
   strcat_m (a ++ 0 :: rd) (b ++ 0 :: rb) = Ok (strcat_s (a ++ 0 :: rd) a b).
 Proof. exact strcat_ok. Qed.
-Print Assumptions C18_strcat.
 
 Theorem C18_strncat : forall a rd B n, ~ In 0 a -> array_ok n B = true ->
   (length (upto_nul_excl n B) <= length rd)%nat ->
   strncat_m (a ++ 0 :: rd) B n = Ok (strncat_s (a ++ 0 :: rd) a B n).
 Proof. exact strncat_ok. Qed.
-Print Assumptions C18_strncat.
 
 (* memcpy and (repaired) wmemcpy run the same loop *)
 Theorem C18_memcpy : forall n d A, (n <= length A)%nat -> (n <= length d)%nat ->
   memcpy_m d A n = Ok (memcpy_s d A n).
 Proof. exact memcpy_ok. Qed.
-Print Assumptions C18_memcpy.
 
 Theorem C18_memset : forall ct d c n, (n <= length d)%nat ->
   memset_m ct d c n = Ok (memset_s d (conv_char (is_wide ct) c) n).
 Proof. exact memset_ok. Qed.
-Print Assumptions C18_memset.
 
 (* memmove: destination offset d, source offset s, count n anywhere inside one allocation: every overlap *)
 Theorem C18_memmove : forall m d s n, (d + n <= length m)%nat -> (s + n <= length m)%nat ->
   memmove_m m d s n = Ok (memmove_s m d s n).
 Proof. exact memmove_ok. Qed.
-Print Assumptions C18_memmove.
 
 Theorem C18_memmove_elements : forall m d s n, (d + n <= length m)%nat -> (s + n <= length m)%nat ->
   length (memmove_s m d s n) = length m /\
   (forall i, (i < n)%nat -> nth_error (memmove_s m d s n) (d + i) = nth_error m (s + i)) /\
   (forall i, (i < d \/ d + n <= i)%nat -> nth_error (memmove_s m d s n) i = nth_error m i).
 Proof. exact memmove_s_elements. Qed.
-Print Assumptions C18_memmove_elements.
 
 (* memmove between two DIFFERENT allocations: the pointer comparison `ps < pd` is then unspecified ([below] is
    whichever way it comes out); both loops store the n source elements and leave the rest of the destination *)
 Theorem C18_memmove_two_allocations : forall below n d s, (n <= length s)%nat -> (n <= length d)%nat ->
   memmove2_m below d s n = Ok (memcpy_s d s n).
 Proof. exact memmove2_ok. Qed.
-Print Assumptions C18_memmove_two_allocations.
 
 (* counts larger than the arrays (up to SIZE_MAX; legal for strncmp/strncat on terminated strings and for memchr when
    a match exists): neither the model nor the specification depends on the count once it exceeds the array
@@ -203,7 +174,6 @@ Theorem C18_counts_beyond_arrays : forall n k,
   (forall ct A ch, (length A < n)%nat -> (length A < k)%nat ->
      memchr_m ct A ch n = memchr_m ct A ch k /\ memchr_s A (conv_char (is_wide ct) ch) n = memchr_s A (conv_char (is_wide ct) ch) k).
 Proof. exact counts_beyond_arrays. Qed.
-Print Assumptions C18_counts_beyond_arrays.
 
 (* the null-pointer entry checks of the front ends ([None] = nullptr): strcpy/strncpy/wcscpy/wcsncpy/strchr/memmove
    answer with a contract violation, detail::strrchr with a null result; otherwise the functions above run *)
@@ -217,23 +187,45 @@ Theorem C18_null_arguments :
   (forall b s n, memmove_front_m b None s n = Contract) /\ (forall b d n, memmove_front_m b (Some d) None n = Contract) /\
   (forall b d s n, memmove_front_m b (Some d) (Some s) n = memmove2_m b d s n).
 Proof. exact null_arguments. Qed.
-Print Assumptions C18_null_arguments.
+
+Theorem C18_null_arguments_spec : forall d s n b ch,
+  (precondition_violated [is_null d; is_null s] = true ->
+     strcpy_front_m d s = Contract /\ strncpy_front_m d s n = Contract /\ memmove_front_m b d s n = Contract) /\
+  (precondition_violated [is_null (@None (list Z))] = true /\ strchr_front_m None ch = Contract) /\
+  (forall ct, strrchr_front_m ct None ch = Ok strrchr_null_s).
+Proof. exact null_arguments_spec. Qed.
 
 (** * <cstdlib> div family, labs/llabs (any integer type t of the code: int, long, long long, intmax_t) *)
 Theorem C18_div : forall t x y, in_range t x -> in_range t y -> y <> 0 -> in_range t (fst (div_s x y)) ->
   div_m t x y = Some (div_s x y).
 Proof. exact div_ok. Qed.
-Print Assumptions C18_div.
 
 Theorem C18_div_representable : forall w x y, 0 < w ->
   in_range {| bits := w; sgn := true |} x -> in_range {| bits := w; sgn := true |} y -> y <> 0 ->
   ~ (x = - 2 ^ (w - 1) /\ y = -1) -> in_range {| bits := w; sgn := true |} (fst (div_s x y)).
 Proof. exact div_quot_in_range. Qed.
-Print Assumptions C18_div_representable.
 
 Theorem C18_abs : forall t x, in_range t x -> in_range t (Z.abs x) -> abs_m t x = Some (Z.abs x).
 Proof. exact abs_ok. Qed.
-Print Assumptions C18_abs.
+
+(** * Assumptions.  `Print Assumptions` costs ~0.4 s per call on this development and the check re-runs this file on
+   every invocation, so it is asked once per GROUP: each group is the tuple of the proofs of the theorems above (a
+   term that mentions every one of them), hence "Closed under the global context" for the group means that every
+   theorem of the group, and everything its proof depends on, is free of axioms and of admitted lemmas. *)
+Definition C18_group_ctype := (C18_cctype_classes, C18_cctype_conversions, C18_cwctype_classes, C18_cwctype_conversions, C18_ctype_partition).
+Print Assumptions C18_group_ctype.
+Definition C18_group_compare := (C18_strlen, C18_strcmp, C18_strncmp, C18_memcmp).
+Print Assumptions C18_group_compare.
+Definition C18_group_search := (C18_strchr, C18_strrchr, C18_memchr, C18_strspn, C18_strcspn, C18_strpbrk, C18_strstr, C18_strstr_spec_first, C18_strstr_spec_none, C18_is_prefix_meaning).
+Print Assumptions C18_group_search.
+Definition C18_group_writers := (C18_overwrite_frame, C18_strcpy, C18_strncpy, C18_strcat, C18_strncat, C18_memcpy, C18_memset).
+Print Assumptions C18_group_writers.
+Definition C18_group_memmove := (C18_memmove, C18_memmove_elements, C18_memmove_two_allocations).
+Print Assumptions C18_group_memmove.
+Definition C18_group_front_ends := (C18_counts_beyond_arrays, C18_null_arguments, C18_null_arguments_spec).
+Print Assumptions C18_group_front_ends.
+Definition C18_group_cstdlib := (C18_div, C18_div_representable, C18_abs).
+Print Assumptions C18_group_cstdlib.
 
 (** non-vacuity: the hypotheses are met by ordinary arguments, and the once-defective inputs now agree *)
 Example C18_nonvacuous :
